@@ -17,6 +17,8 @@ type Config struct {
 	// pure=true makes it a pure term when all its reference arguments are read-only.
 	Opaque   func(callee *ssa.Function) (opaque bool, pure bool)
 	MaxDepth int
+	// PureInvoke lists interface methods treated as pure observers (e.g. os.FileInfo.IsDir).
+	PureInvoke map[string]bool
 }
 
 type Ext struct {
